@@ -305,7 +305,7 @@ func (g *gen) exp(key string) int {
 }
 
 var idxNames = []string{"i", "i2", "j", "h"}
-var idxKeys = []string{"a", "b", "b0", "c", "c.", "d"}
+var idxKeys = []string{"a", "b", "b0", "c", "c.", "d", ""}
 var seqPrefixes = map[string]int{"s": 1, "t/u": 2, "q": 3} // prefix -> number of deltas (constant per prefix)
 
 func (g *gen) put() m.Put {
